@@ -5,8 +5,10 @@
 #include "hep/mc.hpp"
 #include "vt_trace.hpp"
 
+#include <atomic>
 #include <cmath>
 #include <cstdlib>
+#include <thread>
 #include <vector>
 
 using namespace vt;
@@ -162,6 +164,32 @@ template <typename T> static void family(rng& g, bool thorough)
     for (int i = 0; i != (thorough ? 60 : 12); ++i) dist_case<T>(g, (int) g.below(4), sizeof(T) == 4 ? 0 : ks[g.below(3)]);
 }
 
+// two threads of one process combine results with distributions of the same numeric type at the same time: every combination is what it is alone
+// (the events of each thread are collected and written one thread after the other)
+template <typename T> static void concurrent_family(rng& g, int cases)
+{
+    std::vector<std::string> buf[2];
+    unsigned long long seeds[2] = {g.next(), g.next()};
+    std::atomic<int> ready{0}, arrive{0};
+    auto body = [&](int i) {
+        rng local(seeds[i]);
+        vt::sink::capture() = &buf[i];
+        ++ready;
+        while (ready.load() < 2) std::this_thread::yield();
+        // (both threads start every case together, so that the combinations really overlap)
+        for (int k = 0; k != cases; ++k)
+        {
+            ++arrive;
+            while (arrive.load() < 2 * (k + 1)) std::this_thread::yield();
+            dist_case<T>(local, 2 + (int) local.below(2), 0);
+        }
+        vt::sink::capture() = nullptr;
+    };
+    std::thread t0(body, 0), t1(body, 1);
+    t0.join(); t1.join();
+    for (int i = 0; i != 2; ++i) for (auto const& line : buf[i]) out().write(line);
+}
+
 int main(int argc, char** argv)
 {
     if (argc < 4) return 2;
@@ -172,6 +200,7 @@ int main(int argc, char** argv)
     family<double>(g, thorough);
     family<float>(g, thorough);
     family<long double>(g, thorough);
+    concurrent_family<double>(g, thorough ? 200 : 60);
     out().close();
     return 0;
 }
